@@ -24,6 +24,21 @@ freshly loaded runtime/machine *replaces* the current one, so that later writes 
 history are made by a register file that was itself restored from a snapshot (where state cached at load
 time -- e.g. `CoreRuntime.metadata` -- can shadow the live registers).  Same oracle: the values read just
 before the snapshot must be read back from the fresh register file.
+
+Round 3:
+  * EVERY name a register file accepts is in the write/read alphabet: the Rust file also has the IMR mirror
+    register (`RegName::IMR`, by-name on the facade too) and accepts out-of-range scratch / unknown operand names
+    (`RegName::Temp(14..)`, `RegName::Unknown`).  None of them overlaps a statement register, so writes to them
+    must leave every other name alone and vice versa (the model keeps IMR as its own cell).
+  * snapshots are VALUES: "snap k" takes a snapshot into a slot, the source register file keeps being written /
+    executed on, "apply k" applies the slot to a fresh register file (which replaces the current one or is only
+    looked at); several snapshots are live at once and are applied in generated order.  Oracle: the fresh file
+    reads what the source returned when the snapshot was TAKEN.
+  * executed instructions: "exec" runs one instruction on the register file (Python `CPU.execute_instruction`,
+    Rust `LlamaExecutor::execute`, both over the same hash-filled memory).  The executor is just another writer
+    of the register file; instruction semantics belong to C04/C06, so the model takes the values observed after
+    the instruction over -- except for NOP, which writes nothing but PC (and re-syncs the IMR mirror from
+    memory): there every other readable value must be unchanged.
 """
 
 from __future__ import annotations
@@ -34,7 +49,8 @@ from typing import Any, Dict, Iterator, List, Optional, Sequence, Tuple
 from ..core import ROOT, Ctx, HarnessError, Report, Violation, jhash, mix32
 from .. import rsclient
 from ..gen_state import Stream
-from ..c08_model import (CORE_NAMES, FLAG_NAME, GROUP, INDEX, MEMBERS, NAMES, TEMP_NAMES, WIDTH, Model, mask)
+from ..c08_model import (CORE_NAMES, FLAG_NAME, GROUP, INDEX, MEMBERS, NAMES, RUST_ONLY, TEMP_NAMES, WIDTH, WNAMES,
+                         XNAMES, Model, mask)
 
 PROPERTY = "C08"
 RULE = ("histories of by-name writes (A,B,BA,IL,IH,I,X,Y,U,S,PC,F,FC,FZ,TEMP0..13 and the C/Z flag API) of 32-bit "
@@ -47,9 +63,20 @@ RULE = ("histories of by-name writes (A,B,BA,IL,IH,I,X,Y,U,S,PC,F,FC,FZ,TEMP0..1
         "ops, half of them focused on one overlap group), seeded generation chains (2..5 snapshots with writes "
         "between them), a deterministic sweep of all ordered write pairs x "
         "boundary values x start states (+ single-bit value probes) and a deterministic sweep of two-generation "
-        "chains (every name changed between the generations x snapshot-path pairs x start states). Non-trivial = the history writes a sub-register after "
+        "chains (every name changed between the generations x snapshot-path pairs x start states). "
+        "Round 3: the write/read alphabet also has the names only the Rust register file accepts (IMR mirror; "
+        "out-of-range TEMP14/15/255 and an unknown operand name, write-only); deferred snapshots (snap into one of "
+        "4 slots, more writes / executed instructions on the source, apply to a fresh file in generated order, "
+        "replacing the current file or not), on the Python side through CPURegistersSnapshot or the CPU facade "
+        "(snapshot_registers/apply_snapshot); executed instructions (NOP and a small palette with random operand "
+        "bytes, memory hash-filled from a generated seed); deterministic sweeps: Rust-only name x every name x "
+        "order (independence), every name changed between taking and applying a snapshot x kind x mode, two live "
+        "snapshots applied in both orders, NOP between a write and a read-back/snapshot. "
+        "Non-trivial = the history writes a sub-register after "
         "a full-register write of the same register (or vice versa), or interleaves F/FC/FZ(/flag API) writes, "
-        "and reads that register afterwards; distinct = hash of the op list.")
+        "and reads that register afterwards; or applies a snapshot whose source register file changed after the "
+        "snapshot was taken; or reads registers back after an executed instruction / a write to a Rust-only name; "
+        "distinct = hash of the op list.")
 
 Op = List[Any]
 
@@ -73,7 +100,9 @@ def _py_api() -> Dict[str, Any]:
         from sc62015.pysc62015.emulator import RegisterName, Registers
         from sc62015.pysc62015.stepper import CPURegistersSnapshot
 
-        _PY.update(RegisterName=RegisterName, Registers=Registers, Snapshot=CPURegistersSnapshot,
+        from sc62015.pysc62015.cpu import CPU
+
+        _PY.update(RegisterName=RegisterName, Registers=Registers, Snapshot=CPURegistersSnapshot, CPU=CPU,
                    enum=[RegisterName[n] for n in NAMES])
         try:
             from pce500.emulator import _pack_register_bytes, _unpack_register_bytes
@@ -138,22 +167,107 @@ def _py_file_roundtrip(emu: Any, api: Dict[str, Any]) -> Any:
     return fresh
 
 
-def _py_roundtrip(regs: Any, api: Dict[str, Any], blob: bool, fresh: Any = None) -> Tuple[Any, str]:
+NOP = "00"
+SLOTS = 4
+
+
+def _uses_exec(ops: Sequence[Op]) -> bool:
+    return any(op[0] == "exec" for op in ops)
+
+
+def py_host_kind(ops: Sequence[Op]) -> str:
+    """Which Python object owns the register file of a history (a pure function of the op list).
+
+    machine: the `Registers` of a PC-E500 machine (histories with a snapshot *file* op);
+    cpu:     the `Registers` of a `sc62015.pysc62015.cpu.CPU` (python backend) over the hash-filled memory --
+             histories that execute instructions or ask for it with ["host", "cpu"]; snapshots are taken and
+             applied through the facade (`CPU.snapshot_registers` / `CPU.apply_snapshot`);
+    plain:   a bare `Registers()` with `CPURegistersSnapshot.from_registers` / `apply_to`."""
+    if _uses_exec(ops) or any(op[0] == "host" and op[1] == "cpu" for op in ops):
+        return "cpu"
+    if _uses_file(ops) and _py_api().get("Emulator") is not None:
+        return "machine"
+    return "plain"
+
+
+class _PyHost:
+    """The current Python register file and the object that owns it."""
+
+    def __init__(self, api: Dict[str, Any], kind: str, mem: Any = None) -> None:
+        self.api, self.kind, self.mem = api, kind, mem
+        self.emu: Any = None
+        self.cpu: Any = None
+        if kind == "machine":
+            self.emu = _py_machine(api)
+            self.regs = self.emu.cpu.regs
+            if type(self.regs) is not api["Registers"] or any(_py_read_all(self.regs, api)):
+                # not a fresh plain register file (e.g. a reset vector in PC): keep to the documented `Registers()`
+                self.kind, self.emu = "plain", None
+                self.regs = api["Registers"]()
+            elif hasattr(self.emu.cpu, "snapshot_registers") and hasattr(self.emu.cpu, "apply_snapshot"):
+                self.cpu = self.emu.cpu
+        elif kind == "cpu":
+            self.cpu = api["CPU"](mem, reset_on_init=False, backend="python")
+            self.regs = self.cpu.regs
+        else:
+            self.regs = api["Registers"]()
+
+    def fresh(self) -> "_PyHost":
+        """A brand-new register file of the same kind (a `cpu` host shares the history's memory)."""
+        return _PyHost(self.api, self.kind, self.mem)
+
+    # immediate round trips keep to the API they always used (from_registers/apply_to) except on the CPU facade
+    def snapshot(self, facade: bool) -> Any:
+        if self.cpu is not None and (facade or self.kind == "cpu"):
+            return self.cpu.snapshot_registers()
+        return self.api["Snapshot"].from_registers(self.regs)
+
+    def apply(self, snap: Any, facade: bool) -> None:
+        if self.cpu is not None and (facade or self.kind == "cpu"):
+            self.cpu.apply_snapshot(snap)
+        else:
+            snap.apply_to(self.regs)
+
+
+def _py_through_blob(snap: Any, api: Dict[str, Any]) -> Tuple[Any, str]:
+    """registers.bin + temps beside it, exactly as PCE500Emulator.save_snapshot/load_snapshot carry them
+    (both are serialised when the snapshot is saved)."""
     Snapshot = api["Snapshot"]
-    snap = Snapshot.from_registers(regs)
+    payload = api["pack"](snap)
+    temps = {int(k): int(v) for k, v in snap.temps.items()}
+    level = int(snap.call_sub_level)
+    vals = api["unpack"](payload)
+    return Snapshot(pc=vals["pc"], ba=vals["ba"], i=vals["i"], x=vals["x"], y=vals["y"], u=vals["u"],
+                    s=vals["s"], f=vals["f"], temps=temps, call_sub_level=level), bytes(payload).hex()
+
+
+def _py_roundtrip(host: _PyHost, blob: bool) -> Tuple[_PyHost, str]:
+    snap = host.snapshot(False)
     n = ""
-    if blob and api["pack"] is not None:
-        # exactly what PCE500Emulator.save_snapshot/load_snapshot do with registers.bin + metadata
-        payload = api["pack"](snap)
-        n = bytes(payload).hex()
-        vals = api["unpack"](payload)
-        snap = Snapshot(pc=vals["pc"], ba=vals["ba"], i=vals["i"], x=vals["x"], y=vals["y"], u=vals["u"],
-                        s=vals["s"], f=vals["f"], temps={int(k): int(v) for k, v in snap.temps.items()},
-                        call_sub_level=int(snap.call_sub_level))
-    if fresh is None:
-        fresh = api["Registers"]()
-    snap.apply_to(fresh)
+    if blob and host.api["pack"] is not None:
+        snap, n = _py_through_blob(snap, host.api)
+    fresh = host.fresh()
+    fresh.apply(snap, False)
     return fresh, n
+
+
+def _py_exec(host: _PyHost, hexbytes: str, seed: int) -> Optional[str]:
+    """One instruction at PC through the CPU facade; the bytes are placed at PC in the hash-filled memory."""
+    from ..pycore import canon
+
+    api = host.api
+    mem = host.mem
+    mem.seed = int(seed) & 0xFFFFFFFF
+    pc = int(host.regs.get(api["RegisterName"].PC))
+    for i, b in enumerate(bytes.fromhex(hexbytes)):
+        mem.over[canon(pc + i)] = b
+    try:
+        host.cpu.execute_instruction(pc)
+    except BaseException as exc:  # noqa: BLE001 -- instruction semantics are not this property's business
+        if isinstance(exc, (KeyboardInterrupt, SystemExit, MemoryError)):
+            raise
+        return type(exc).__name__
+    return None
 
 
 def py_run(ops: Sequence[Op]) -> List[Any]:
@@ -162,15 +276,22 @@ def py_run(ops: Sequence[Op]) -> List[Any]:
     # Histories with a file round trip run on the register file of a PC-E500 machine (still a plain `Registers`,
     # the one `save_snapshot/load_snapshot` capture/restore); every "fresh register file" of such a history is
     # the register file of a brand-new machine.
-    emu = _py_machine(api) if _uses_file(ops) and api.get("Emulator") is not None else None
-    if emu is not None and (type(emu.cpu.regs) is not api["Registers"] or any(_py_read_all(emu.cpu.regs, api))):
-        emu = None  # not a fresh plain register file (e.g. a reset vector in PC): keep to the documented `Registers()`
-    regs = emu.cpu.regs if emu is not None else api["Registers"]()
+    kind = py_host_kind(ops)
+    mem = None
+    if kind == "cpu":
+        from ..pycore import HashMemory
+
+        mem = HashMemory(0)
+    host = _PyHost(api, kind, mem)
+    slots: List[Any] = [None] * SLOTS
     out: List[Any] = []
     for op in ops:
         verb = op[0]
+        regs = host.regs
         try:
-            if verb == "set":
+            if verb in ("set", "get") and op[1] in RUST_ONLY:
+                out.append(None)  # a name only the Rust register file has
+            elif verb == "set":
                 regs.set_by_name(op[1], int(op[2]))
                 out.append(None)
             elif verb == "setflag":
@@ -182,19 +303,44 @@ def py_run(ops: Sequence[Op]) -> List[Any]:
                 out.append(int(regs.get_flag(op[1])))
             elif verb == "all":
                 out.append(_py_read_all(regs, api))
-            elif verb in ("rt", "rtb") or (verb == "rtf" and emu is None):
+            elif verb in ("rt", "rtb") or (verb == "rtf" and host.emu is None):
                 before = _py_read_all(regs, api)
-                if emu is not None:
-                    emu = _py_machine(api)
-                    regs, n = _py_roundtrip(regs, api, verb == "rtb", emu.cpu.regs)
-                else:
-                    regs, n = _py_roundtrip(regs, api, verb != "rt")
-                out.append({"before": before, "after": _py_read_all(regs, api), "blob": n if verb != "rtf" else ""})
+                host, n = _py_roundtrip(host, verb != "rt")
+                out.append({"before": before, "after": _py_read_all(host.regs, api),
+                            "blob": n if verb != "rtf" else ""})
             elif verb == "rtf":
                 before = _py_read_all(regs, api)
-                emu = _py_file_roundtrip(emu, api)
-                regs = emu.cpu.regs
-                out.append({"before": before, "after": _py_read_all(regs, api), "blob": ""})
+                fresh = _PyHost.__new__(_PyHost)
+                fresh.api, fresh.kind, fresh.mem = api, "machine", None
+                fresh.emu = _py_file_roundtrip(host.emu, api)
+                fresh.regs = fresh.emu.cpu.regs
+                fresh.cpu = fresh.emu.cpu if host.cpu is not None else None
+                host = fresh
+                out.append({"before": before, "after": _py_read_all(host.regs, api), "blob": ""})
+            elif verb == "snap":
+                taken = _py_read_all(regs, api)
+                snap = host.snapshot(True)
+                if op[2] == "b" and api["pack"] is not None:
+                    snap, _ = _py_through_blob(snap, api)
+                slots[int(op[1])] = snap
+                out.append(taken)
+            elif verb == "apply":
+                snap = slots[int(op[1])]
+                if snap is None:
+                    out.append(None)
+                else:
+                    cur = _py_read_all(regs, api)
+                    fresh = host.fresh()
+                    fresh.apply(snap, True)
+                    out.append({"cur": cur, "after": _py_read_all(fresh.regs, api)})
+                    if op[2] == "replace":
+                        host = fresh
+            elif verb == "exec":
+                before = _py_read_all(regs, api)
+                e = _py_exec(host, str(op[1]), int(op[2]))
+                out.append({"before": before, "after": _py_read_all(host.regs, api), "err": e})
+            elif verb == "host":
+                out.append(None)
             elif verb == "collect":
                 out.append(dict(api["Snapshot"].from_registers(regs).to_dict()))
             else:
@@ -234,20 +380,39 @@ def rs_run(seqs: Sequence[Sequence[Op]]) -> List[Dict[str, Any]]:
     raise HarnessError(f"c08.run failed: {resp}")
 
 
-def _rs_obs(obs: List[Any], key: str) -> List[Any]:
-    """Project the Rust observation list onto one register file ('st' or 'rt') in py_run's shape."""
+_ALL_KEYS = ("before", "after", "cur")
+
+
+def _rs_obs(obs: List[Any], key: str) -> Tuple[List[Any], List[Any]]:
+    """Project the Rust observation list onto one register file ('st' or 'rt'): (observations in py_run's
+    shape, the values of the Rust-only registers XNAMES read at the same moments)."""
     idx = 0 if key == "st" else 1
     out: List[Any] = []
+    xout: List[Any] = []
     for o in obs:
         if o is None:
             out.append(None)
-        elif isinstance(o, list):
+            xout.append(None)
+        elif isinstance(o, list):                       # get / getflag: [st, rt]
             out.append(o[idx])
-        elif "before" in o:
-            out.append({"before": o["before"][key], "after": o["after"][key], "blob": o.get("blob", "")})
-        else:
+            xout.append(None)
+        elif "st" in o:                                 # read-all (also "snap") / collect
             out.append(o[key])
-    return out
+            xout.append(o["x"][key] if "x" in o else None)
+        else:                                           # round trips, apply, exec: several read-alls
+            d: Dict[str, Any] = {}
+            x: Dict[str, Any] = {}
+            for k in _ALL_KEYS:
+                if k in o:
+                    d[k] = o[k][key]
+                    x[k] = o[k]["x"][key]
+            if "blob" in o:
+                d["blob"] = o["blob"]
+            if "err" in o:
+                d["err"] = o["err"][key]
+            out.append(d)
+            xout.append(x)
+    return out, xout
 
 
 # --------------------------------------------------------------------------------------------------------
@@ -267,13 +432,41 @@ class Expect:
         self.name, self.value, self.writer, self.prev, self.raw = name, value, writer, prev, raw
 
 
-def walk_model(ops: Sequence[Op], detailed: bool = True) -> Tuple[List[Any], List[str], bool]:
-    """Expected observations per op (None for non-reads), class labels, non-trivial flag.
+class XExpect:
+    """Acceptable values of the Rust-only registers (None = anything) and who wrote them last."""
+
+    __slots__ = ("ok", "writer")
+
+    def __init__(self, ok: List[Any], writer: Dict[str, str]) -> None:
+        self.ok, self.writer = ok, dict(writer)
+
+
+def _once(text: str, suffix: str) -> str:
+    """Fingerprint strings stay a finite set: a qualifier is appended at most once."""
+    return text if text.endswith(suffix) else text + suffix
+
+
+def _is_nop(op: Op, o: Any) -> bool:
+    return op[1] == NOP and isinstance(o, dict) and not o.get("err")
+
+
+_PC = INDEX["PC"]
+
+
+def walk_model(ops: Sequence[Op], detailed: bool = True,
+               sync: Optional[List[Any]] = None) -> Tuple[List[Any], List[Any], List[str], bool]:
+    """Expected observations per op (None for non-reads), expectations for the Rust-only registers per op,
+    class labels, non-trivial flag.
 
     detailed=False yields plain expected values (fast path); detailed=True yields Expect objects carrying the
-    context needed to classify a mismatch.  Both come from the same Model walk."""
+    context needed to classify a mismatch.  Both come from the same Model walk.
+
+    `sync` = the observations of the register file the walk is for; it is consulted at "exec" ops only, where the
+    model takes the values observed after the instruction over (all of them, or just PC for a NOP).  The walk
+    ends early where such an observation is missing."""
     m = Model()
     writer: Dict[str, str] = {g: "nothing (fresh)" for g in MEMBERS}
+    xwriter: Dict[str, str] = {n: "nothing (fresh)" for n in XNAMES}
     prev: Dict[str, List[int]] = {g: m.read_all() for g in MEMBERS}
     last_kind: Dict[str, Tuple[str, str]] = {}  # group -> (kind, name) of the last write
     pending_nt: Dict[str, str] = {}             # group -> nt label waiting for a read of that group
@@ -281,6 +474,10 @@ def walk_model(ops: Sequence[Op], detailed: bool = True) -> Tuple[List[Any], Lis
     nt = False
     snaps = 0                        # snapshot generations so far
     since: Optional[str] = None      # what was written since the last snapshot op (None / "core" / "TEMP")
+    slots: List[Any] = [None] * SLOTS   # live snapshots: model state at the time they were taken
+    file_no = 0                      # which register file is current (changes when a fresh one replaces it)
+    n_exec = 0
+    pending_x: Optional[str] = None  # label waiting for the next full read-back
 
     def exp_of(name: str) -> Any:
         if not detailed:
@@ -288,18 +485,42 @@ def walk_model(ops: Sequence[Op], detailed: bool = True) -> Tuple[List[Any], Lis
         g = GROUP[name]
         return Expect(name, m.get(name), writer[g], prev[g][INDEX[name]], m.temp_raw.get(name))
 
+    def exp_all() -> Any:
+        return [exp_of(n) for n in NAMES] if detailed else m.read_all()
+
+    def xexp() -> XExpect:
+        return XExpect(m.read_x(), xwriter)
+
     def note_read(names: Sequence[str]) -> None:
-        nonlocal nt
+        nonlocal nt, pending_x
         for n in names:
             lb = pending_nt.pop(GROUP[n], None)
             if lb:
                 nt = True
                 labels.append(lb)
+        if pending_x and len(names) == len(NAMES):
+            nt = True
+            labels.append(pending_x)
+            pending_x = None
+
+    def all_written(by: str) -> None:
+        for g in MEMBERS:
+            prev[g] = m.read_all()
+            writer[g] = by
 
     out: List[Any] = []
-    for op in ops:
+    xout: List[Any] = []
+    for i, op in enumerate(ops):
         verb = op[0]
-        if verb in ("set", "setflag"):
+        if verb == "set" and op[1] in RUST_ONLY:
+            m.set(op[1], int(op[2]))
+            if op[1] in xwriter:
+                xwriter[op[1]] = f"set {op[1]}"
+            labels.append("write:rust-only:" + _fp_name(op[1]))
+            pending_x = "nt:read-back-after-rust-only-write"
+            out.append(None)
+            xout.append(None)
+        elif verb in ("set", "setflag"):
             name = op[1] if verb == "set" else FLAG_NAME[op[1]]
             g = GROUP[name]
             prev[g] = m.read_all()
@@ -319,49 +540,179 @@ def walk_model(ops: Sequence[Op], detailed: bool = True) -> Tuple[List[Any], Lis
             if snaps:
                 since = "TEMP" if name.startswith("TEMP") or since == "TEMP" else "core"
             out.append(None)
+            xout.append(None)
+        elif verb == "get" and op[1] in XNAMES:
+            labels.append("read:rust-only:" + op[1])
+            out.append(None)
+            xout.append(xexp())
         elif verb == "get":
             note_read([op[1]])
             out.append(exp_of(op[1]))
+            xout.append(None)
         elif verb == "getflag":
             note_read([FLAG_NAME[op[1]]])
             out.append(exp_of(FLAG_NAME[op[1]]))
+            xout.append(None)
         elif verb in ("all", "rt", "rtb", "rtf"):
             note_read(NAMES)
-            out.append([exp_of(n) for n in NAMES] if detailed else m.read_all())
-            if verb != "all":
+            out.append(exp_all())
+            if verb == "all":
+                xout.append({"all": xexp()})
+            else:
+                pre = xexp()
+                m.x_fresh_after_snapshot(m.read_x())
+                for n in XNAMES:
+                    xwriter[n] = _once(xwriter[n], ", then a snapshot round trip")
+                xout.append({"before": pre, "after": xexp()})
                 labels.append("roundtrip:" + verb)
                 if snaps and since:
                     # a register file that was itself restored from a snapshot, then written, is snapshotted
                     labels.append(f"chain:{verb}-of-restored-file:{since}-changed")
+                if n_exec:
+                    labels.append("roundtrip-after-exec")
                 snaps += 1
                 since = None
+                file_no += 1
                 labels.append("generations:%s" % (snaps if snaps < 4 else "4+"))
+        elif verb == "snap":
+            note_read(NAMES)
+            out.append(exp_all())
+            xout.append({"all": xexp()})
+            k = int(op[1])
+            slots[k] = {"i": i, "store": dict(m.store), "raw": dict(m.temp_raw), "x": m.read_x(),
+                        "values": m.read_all(), "file": file_no, "n_exec": n_exec,
+                        "writer": dict(writer), "prev": {g: list(v) for g, v in prev.items()}}
+            labels.append("snap:" + str(op[2]))
+            labels.append("live:%d" % sum(1 for sl in slots if sl is not None))
+        elif verb == "apply":
+            sl = slots[int(op[1])]
+            if sl is None:
+                out.append(None)
+                xout.append(None)
+                continue
+            note_read(NAMES)
+            cur = m.read_all()
+            out.append({"j": sl["i"], "cur": exp_all()})
+            pre = xexp()
+            changed = [n for n, a0, a1 in zip(NAMES, sl["values"], cur) if a0 != a1]
+            what = ("TEMP" if any(n.startswith("TEMP") for n in changed) else "core") if changed else "unchanged"
+            labels.append(f"deferred:{op[2]}:source-{what}" + ("-changed" if changed else ""))
+            if sl["n_exec"] != n_exec:
+                labels.append("deferred:source-executed-instructions")
+            if sl["file"] != file_no:
+                labels.append("deferred:of-an-earlier-register-file")
+            labels.append("live-at-apply:%d" % sum(1 for x in slots if x is not None))
+            if changed or sl["n_exec"] != n_exec:
+                nt = True
+                labels.append("nt:deferred-apply-after-source-changed")
+            if op[2] == "replace":
+                m.store = dict(sl["store"])
+                m.temp_raw = dict(sl["raw"])
+                m.x_fresh_after_snapshot(sl["x"])
+                for g in MEMBERS:
+                    writer[g] = _once(sl["writer"][g], ", snapshotted, applied later")
+                    prev[g] = list(sl["prev"][g])
+                for n in XNAMES:
+                    xwriter[n] = "applying a snapshot to a fresh file"
+                xout.append({"cur": pre, "after": xexp()})
+                file_no += 1
+                snaps += 1
+                since = None
+            else:
+                keep = dict(m.x)
+                m.x_fresh_after_snapshot(sl["x"])
+                post = XExpect(m.read_x(), {n: "applying a snapshot to a fresh file" for n in XNAMES})
+                m.x = keep
+                xout.append({"cur": pre, "after": post})
+        elif verb == "exec":
+            note_read(NAMES)
+            out.append(exp_all())
+            xout.append({"before": xexp()})
+            o = sync[i] if sync is not None and i < len(sync) else None
+            if not (isinstance(o, dict) and isinstance(o.get("after"), list) and len(o["after"]) == len(NAMES)):
+                break  # nothing to continue from
+            n_exec += 1
+            if _is_nop(op, o):
+                prev["PC"] = m.read_all()
+                writer["PC"] = "exec"
+                m.set("PC", int(o["after"][_PC]))
+                labels.append("exec:nop")
+            else:
+                all_written("exec")
+                m.load([int(v) for v in o["after"]])
+                last_kind.clear()
+                pending_nt.clear()
+                labels.append("exec:other" if not o.get("err") else "exec:failed")
+            m.x_unknown()
+            for n in XNAMES:
+                xwriter[n] = "exec"
+            if snaps:
+                since = since or "core"
+            pending_x = "nt:read-back-after-exec"
+        elif verb == "host":
+            labels.append("py-host:" + str(op[1]))
+            out.append(None)
+            xout.append(None)
         elif verb == "collect":
             out.append(("collect", m.read_all()))
+            xout.append(None)
         else:
             raise HarnessError(f"unknown op {op}")
-    return out, labels, nt
+    return out, xout, labels, nt
 
 
-def _fast_ok(ops: Sequence[Op], exp: List[Any], py: List[Any], rs: Any) -> bool:
-    """True iff every observation of all three register files equals the model (the common case)."""
-    if not isinstance(rs, list) or len(py) != len(ops) or len(rs) != len(ops):
+def _x_ok(xe: Any, got: Any) -> bool:
+    """Rust-only registers: every observed value is one of the acceptable ones."""
+    if got is None or xe is None:
+        return True
+    return all(ok is None or g in ok for ok, g in zip(xe.ok, got))
+
+
+def _nop_frame_ok(before: List[int], after: List[int]) -> bool:
+    return all(a == b for k, (a, b) in enumerate(zip(after, before)) if k != _PC)
+
+
+def _impl_ok(ops: Sequence[Op], exp: List[Any], xexp: List[Any], obs: List[Any], xobs: Optional[List[Any]]) -> bool:
+    """True iff every observation of one register file equals the (plain) model walk -- the common case."""
+    if len(obs) != len(ops) or len(exp) != len(ops):
         return False
     try:
-        for op, e, p, r in zip(ops, exp, py, rs):
-            verb = op[0]
-            if verb in ("get", "getflag"):
-                if p != e or r != [e, e]:
+        for i, op in enumerate(ops):
+            verb, e, o = op[0], exp[i], obs[i]
+            x = xobs[i] if xobs is not None else None
+            if verb == "get" and op[1] in XNAMES:
+                if xobs is not None and not _x_ok(xexp[i], [o]):
                     return False
-            elif verb == "all":
-                if p != e or r["st"] != e or r["rt"] != e:
+            elif verb in ("get", "getflag"):
+                if o != e:
+                    return False
+            elif verb in ("all", "snap"):
+                if o != e or (x is not None and not _x_ok(xexp[i]["all"], x)):
                     return False
             elif verb in ("rt", "rtb", "rtf"):
-                if p["before"] != e or p["after"] != e:
+                if o["before"] != e or o["after"] != e:
                     return False
-                if r["before"]["st"] != e or r["after"]["st"] != e or r["before"]["rt"] != e or r["after"]["rt"] != e:
+                if x is not None and not (_x_ok(xexp[i]["before"], x["before"]) and _x_ok(xexp[i]["after"], x["after"])):
                     return False
-    except (KeyError, TypeError, IndexError):
+            elif verb == "apply":
+                if e is None:
+                    if o is not None:
+                        return False
+                    continue
+                if o["cur"] != e["cur"] or o["after"] != obs[e["j"]]:
+                    return False
+                if x is not None and not (_x_ok(xexp[i]["cur"], x["cur"]) and _x_ok(xexp[i]["after"], x["after"])):
+                    return False
+            elif verb == "exec":
+                if o["before"] != e:
+                    return False
+                if x is not None and not _x_ok(xexp[i]["before"], x["before"]):
+                    return False
+                if _is_nop(op, o) and not _nop_frame_ok(o["before"], o["after"]):
+                    return False
+            elif isinstance(o, dict) and "error" in o and verb != "collect":
+                return False
+    except (KeyError, TypeError, IndexError, AttributeError):
         return False
     return True
 
@@ -396,64 +747,141 @@ def _check_read(impl: str, e: Expect, got: Any, case: Dict[str, Any], i: int, op
                            f"(last write to its group: {e.writer}; value before that write {e.prev:#x})")
 
 
+def _check_x(impl: str, xe: Any, got: Any, case: Dict[str, Any], i: int, op: Op) -> List[Violation]:
+    """Reads of the Rust-only registers against their sets of acceptable values."""
+    out: List[Violation] = []
+    if xe is None or got is None:
+        return out
+    for n, ok, g in zip(XNAMES, xe.ok, got):
+        if ok is None or g in ok:
+            continue
+        out.append(Violation("model", f"{impl} read {n}", f"after {_fp_writer(xe.writer[n])}: wrong value", case,
+                             f"op#{i} {op}: {impl} read {n} = {g:#x}; acceptable: "
+                             f"{', '.join(hex(v) for v in ok[:4])}{' ...' if len(ok) > 4 else ''} "
+                             f"({n} overlaps no other register; last written by: {xe.writer[n]})"))
+    return out
+
+
 def _fp_writer(w: str) -> str:
     parts = w.split(" ")
-    if len(parts) == 2 and parts[1].startswith("TEMP"):
-        return parts[0] + " TEMP"
+    if len(parts) >= 2 and parts[1].rstrip(",").startswith("TEMP"):
+        return " ".join([parts[0], "TEMP" + ("," if parts[1].endswith(",") else "")] + parts[2:])
     return w
 
 
-def check_impl(impl: str, ops: Sequence[Op], exp: List[Any], obs: List[Any], case: Dict[str, Any],
+def _check_all(impl: str, e: List[Expect], got: List[Any], case: Dict[str, Any], i: int, op: Op,
                notes: List[str]) -> List[Violation]:
+    out: List[Violation] = []
+    for ee, g in zip(e, got):
+        v = _check_read(impl, ee, g, case, i, op, notes)
+        if v:
+            out.append(v)
+    return out
+
+
+def _not_reproduced(impl: str, kind: str, names: Sequence[str], ref: List[int], after: List[int],
+                    cur: Optional[List[int]], case: Dict[str, Any], i: int, op: Op) -> List[Violation]:
+    """A fresh register file a snapshot was applied to does not read what the source read (`ref`).
+
+    One verdict per backing store; aliases only when the full register itself came back right.  `cur` (deferred
+    snapshots) = what the source register file reads *now*: tells a snapshot that follows its source apart."""
+    out: List[Violation] = []
+    bad = {n: (b, a) for n, b, a in zip(names, ref, after) if a != b}
+    # "follows its source": every value that came back wrong is the one the source register file holds now
+    all_follow = cur is not None and all(a == cur[INDEX[n]] for n, (_, a) in bad.items())
+    for g, members in MEMBERS.items():
+        mb = [n for n in members if n in bad]
+        for n in ([g] if g in mb else mb):
+            b, a = bad[n]
+            if cur is None:
+                out.append(Violation("roundtrip", f"{impl} {kind} snapshot: {_fp_name(n)}", "value not reproduced",
+                                     case, f"op#{i} {op}: {impl} {n} read {b:#x} before the snapshot round trip "
+                                           f"and {a:#x} after applying it to a fresh register file"))
+                continue
+            c = cur[INDEX[n]]
+            follows = all_follow and c != b
+            out.append(Violation(
+                "roundtrip", f"{impl} {kind} snapshot: {_fp_name(n)}",
+                "value at snapshot time not reproduced: the snapshot follows later changes of its source"
+                if follows else "value not reproduced", case,
+                f"op#{i} {op}: {impl} {n} read {b:#x} when the snapshot in slot {op[1]} was taken, the "
+                f"source register file reads {c:#x} now, and the fresh register file the snapshot was applied to "
+                f"reads {a:#x}"))
+    return out
+
+
+def check_impl(impl: str, ops: Sequence[Op], exp: List[Any], xexp: List[Any], obs: List[Any],
+               xobs: Optional[List[Any]], case: Dict[str, Any], notes: List[str]) -> List[Violation]:
     """Compare one register file's observations with the model; stop at the first failing op."""
     out: List[Violation] = []
+    kinds: Dict[int, str] = {}   # slot -> "direct" | "blob"
     for i, op in enumerate(ops):
-        if i >= len(obs):
+        if i >= len(obs) or i >= len(exp):
             break
         o, e = obs[i], exp[i]
+        x = xobs[i] if xobs is not None else None
+        xe = xexp[i]
         verb = op[0]
         if isinstance(o, dict) and "error" in o and "before" not in o and verb != "collect":
             out.append(Violation("exception", f"{impl} {verb}", f"raises {o['error']}", case,
                                  f"op#{i} {op}: {o}"))
             return out
-        if verb in ("get", "getflag"):
+        if verb == "get" and op[1] in XNAMES:
+            if xobs is not None:
+                out += _check_x(impl, xe, [o], case, i, op)
+        elif verb in ("get", "getflag"):
             v = _check_read(impl, e, o, case, i, op, notes)
             if v:
                 out.append(v)
-        elif verb == "all":
-            for ee, got in zip(e, o):
-                v = _check_read(impl, ee, got, case, i, op, notes)
-                if v:
-                    out.append(v)
+        elif verb in ("all", "snap"):
+            out += _check_all(impl, e, o, case, i, op, notes)
+            if x is not None:
+                out += _check_x(impl, xe["all"], x, case, i, op)
+            if verb == "snap":
+                kinds[int(op[1])] = "blob" if op[2] == "b" else "direct"
         elif verb in ("rt", "rtb", "rtf"):
-            for ee, got in zip(e, o["before"]):
-                v = _check_read(impl, ee, got, case, i, op, notes)
-                if v:
-                    out.append(v)
+            out += _check_all(impl, e, o["before"], case, i, op, notes)
+            if x is not None:
+                out += _check_x(impl, xe["before"], x["before"], case, i, op)
             if not out:
-                bad = {n: (b, a) for n, b, a in zip(NAMES, o["before"], o["after"]) if a != b}
-                kind = "direct" if verb == "rt" else "blob" if verb == "rtb" else _file_kind(impl)
-                for g, members in MEMBERS.items():
-                    mb = [n for n in members if n in bad]
-                    # one verdict per backing store; aliases only when the full register itself came back right
-                    for n in ([g] if g in mb else mb):
-                        b, a = bad[n]
-                        out.append(Violation("roundtrip", f"{impl} {kind} snapshot: {_fp_name(n)}",
-                                             "value not reproduced", case,
-                                             f"op#{i} {op}: {impl} {n} read {b:#x} before the snapshot round trip "
-                                             f"and {a:#x} after applying it to a fresh register file"))
+                kind = "direct" if verb == "rt" else "blob" if verb == "rtb" else _file_kind(impl, ops)
+                out += _not_reproduced(impl, kind, NAMES, o["before"], o["after"], None, case, i, op)
+                if x is not None and not out:
+                    out += _check_x(impl, xe["after"], x["after"], case, i, op)
+        elif verb == "apply":
+            if e is None:
+                continue
+            out += _check_all(impl, e["cur"], o["cur"], case, i, op, notes)
+            if x is not None:
+                out += _check_x(impl, xe["cur"], x["cur"], case, i, op)
+            if not out:
+                out += _not_reproduced(impl, kinds.get(int(op[1]), "direct"), NAMES, obs[e["j"]], o["after"],
+                                       o["cur"], case, i, op)
+                if x is not None and not out:
+                    out += _check_x(impl, xe["after"], x["after"], case, i, op)
+        elif verb == "exec":
+            out += _check_all(impl, e, o["before"], case, i, op, notes)
+            if x is not None:
+                out += _check_x(impl, xe["before"], x["before"], case, i, op)
+            if not out and _is_nop(op, o):
+                for n, b, a in zip(NAMES, o["before"], o["after"]):
+                    if a != b and n != "PC":
+                        out.append(Violation("frame", f"{impl} exec NOP: {_fp_name(n)}",
+                                             "a register that NOP does not write changed", case,
+                                             f"op#{i} {op}: {impl} {n} read {b:#x} before and {a:#x} after "
+                                             f"executing NOP (only PC is written by NOP)"))
         if out:
             return out
     return out
 
 
-def _file_kind(impl: str) -> str:
+def _file_kind(impl: str, ops: Sequence[Op]) -> str:
     """What an "rtf" op exercises on each register file (fingerprint component)."""
     if impl == "rs-runtime":
         return "file"          # CoreRuntime::save_snapshot -> CoreRuntime::new().load_snapshot
-    if impl == "py" and _py_api().get("Emulator") is not None:
+    if impl == "py" and py_host_kind(ops) == "machine":
         return "file"          # PCE500Emulator.save_snapshot -> PCE500Emulator().load_snapshot
-    return "blob"              # bare LlamaState: no file path of its own, same as "rtb"
+    return "blob"              # bare LlamaState / CPU facade: no file path of its own, same as "rtb"
 
 
 def check_temp_diff(ops: Sequence[Op], all_obs: Dict[str, List[Any]], case: Dict[str, Any]) -> List[Violation]:
@@ -462,14 +890,19 @@ def check_temp_diff(ops: Sequence[Op], all_obs: Dict[str, List[Any]], case: Dict
         verb = op[0]
         if verb == "get" and op[1].startswith("TEMP"):
             return [(op[1], o)]
-        if verb == "all" and isinstance(o, list):
+        if verb in ("all", "snap") and isinstance(o, list):
             return [(n, o[INDEX[n]]) for n in TEMP_NAMES]
-        if verb in ("rt", "rtb", "rtf") and isinstance(o, dict) and "after" in o:
+        if verb in ("rt", "rtb", "rtf", "apply") and isinstance(o, dict) and "after" in o:
             return [(n, o["after"][INDEX[n]]) for n in TEMP_NAMES]
         return None
 
     n_ops = min(len(all_obs[k]) for k in all_obs)
     for i in range(n_ops):
+        if ops[i][0] == "exec" and not (ops[i][1] == NOP and all(
+                isinstance(all_obs[k][i], dict) and not all_obs[k][i].get("err") for k in all_obs)):
+            # Python lifts through LLIL temporaries, the Rust executor does not use TEMPn: after an executed
+            # instruction other than NOP the scratch registers legitimately differ
+            return []
         reads = {k: temp_reads(all_obs[k][i], ops[i]) for k in all_obs}
         if any(r is None for r in reads.values()):
             continue
@@ -486,7 +919,7 @@ def _to_dict_labels(ops: Sequence[Op], exp: List[Any], py: List[Any]) -> List[st
     """Informational only: does the snapshot's dictionary form show the values the reads return?"""
     out: List[str] = []
     for i, op in enumerate(ops):
-        if op[0] == "collect" and i < len(py) and isinstance(py[i], dict) and "error" not in py[i]:
+        if op[0] == "collect" and i < len(py) and i < len(exp) and isinstance(py[i], dict) and "error" not in py[i]:
             vals = exp[i][1]
             same = all(py[i].get(k.lower()) == vals[INDEX[k]] for k in ("PC", "BA", "I", "X", "Y", "U", "S", "F"))
             out.append("py-to_dict:" + ("matches-reads" if same else "differs-from-reads"))
@@ -505,29 +938,50 @@ def _blob_labels(ops: Sequence[Op], py: List[Any], rs: Any) -> List[str]:
 
 
 def evaluate(ops: Sequence[Op], rs_res: Dict[str, Any]) -> Tuple[List[Violation], List[str], bool]:
-    plain, labels, nt = walk_model(ops, detailed=False)
     py_obs = py_run(ops)
-    labels += _to_dict_labels(ops, plain, py_obs)
-    labels += _blob_labels(ops, py_obs, rs_res.get("obs"))
-    if _fast_ok(ops, plain, py_obs, rs_res.get("obs")):
-        return [], labels, nt
-    # slow path: same model walk, with the context needed to describe the mismatch
-    case = {"ops": [list(o) for o in ops]}
-    exp, _, _ = walk_model(ops, detailed=True)
-    notes: List[str] = []
-    viols: List[Violation] = []
-    all_obs: Dict[str, List[Any]] = {"py": py_obs}
+    all_obs: Dict[str, Tuple[List[Any], Optional[List[Any]]]] = {"py": (py_obs, None)}
     if "obs" in rs_res:
         for impl in ("rs", "rs-runtime"):
             all_obs[impl] = _rs_obs(rs_res["obs"], _RS_KEY[impl])
-    elif "panic" in rs_res:
-        viols.append(Violation("exception", "rs sequence", "rust panic", case, f"panic: {rs_res['panic']}"))
-    else:
-        viols.append(Violation("exception", "rs sequence", "rust error: " + str(rs_res.get("error", "?")).split(":")[0],
-                               case, f"error: {rs_res.get('error')}"))
+    # an executed instruction makes the expected values depend on what the register file held afterwards:
+    # one model walk per register file; otherwise one walk serves all three
+    per_impl = _uses_exec(ops)
+    walks: Dict[str, Any] = {}
+
+    def walk_for(impl: str, detailed: bool) -> Any:
+        key = (impl if per_impl else "*", detailed)
+        if key not in walks:
+            walks[key] = walk_model(ops, detailed, all_obs[impl][0] if per_impl else None)
+        return walks[key]
+
+    plain, _, labels, nt = walk_for("py", False)
+    labels = list(labels)
+    labels += _to_dict_labels(ops, plain, py_obs)
+    labels += _blob_labels(ops, py_obs, rs_res.get("obs"))
+    if len(all_obs) == 3:
+        ok = True
+        for impl, (obs, xobs) in all_obs.items():
+            exp, xexp, _, _ = walk_for(impl, False)
+            if not _impl_ok(ops, exp, xexp, obs, xobs):
+                ok = False
+                break
+        if ok:
+            return [], labels, nt
+    # slow path: same model walk, with the context needed to describe the mismatch
+    case = {"ops": [list(o) for o in ops]}
+    notes: List[str] = []
+    viols: List[Violation] = []
+    if "obs" not in rs_res:
+        if "panic" in rs_res:
+            viols.append(Violation("exception", "rs sequence", "rust panic", case, f"panic: {rs_res['panic']}"))
+        else:
+            viols.append(Violation("exception", "rs sequence",
+                                   "rust error: " + str(rs_res.get("error", "?")).split(":")[0],
+                                   case, f"error: {rs_res.get('error')}"))
     per: Dict[str, List[Violation]] = {}
-    for impl, obs in all_obs.items():
-        per[impl] = check_impl(impl, ops, exp, obs, case, notes)
+    for impl, (obs, xobs) in all_obs.items():
+        exp, xexp, _, _ = walk_for(impl, True)
+        per[impl] = check_impl(impl, ops, exp, xexp, obs, xobs, case, notes)
     # the runtime facade shares LlamaState with `rs`: report it only where it adds something
     if "rs" in per and "rs-runtime" in per:
         seen = {(v.subcheck, v.where.replace("rs ", "", 1), v.symptom) for v in per["rs"]}
@@ -536,7 +990,7 @@ def evaluate(ops: Sequence[Op], rs_res: Dict[str, Any]) -> Tuple[List[Violation]
     for impl in all_obs:
         viols += per[impl]
     if len(all_obs) == 3 and not viols:
-        viols += check_temp_diff(ops, all_obs, case)
+        viols += check_temp_diff(ops, {k: v[0] for k, v in all_obs.items()}, case)
     labels += sorted(set(notes))
     uniq: Dict[str, Violation] = {}
     for v in viols:  # one verdict per fingerprint and history (TEMP0..13 share the bucket "TEMP")
@@ -673,20 +1127,155 @@ def generation_sequences(seed: int, shard: int, n: int) -> List[List[Op]]:
     return out
 
 
+# executed instructions: (opcode byte(s), number of generated operand bytes).  NOP is the one instruction whose
+# register effect this property asserts (nothing but PC); the others are just further writers of the register
+# file (MV A,n / ADD A,n / ADD (m),A / SUB (m),A / SBC A,n / PUSHU r / POPU r / POPS F / EX (m),(n) / EX r,r / SC /
+# INC r / RETI: the Python lifter routes most of them through LLIL temporaries, i.e. they write TEMPn).  The
+# block instructions (MVL, ADCL, DADL, ...) are left out: they loop I times (seconds on the Python core).
+EXEC_TEMPLATES: Tuple[Tuple[str, int], ...] = (("08", 1), ("40", 1), ("45", 1), ("4d", 1), ("58", 1), ("2e", 0),
+                                               ("28", 0), ("2b", 0), ("38", 0), ("3e", 0), ("5f", 0), ("c0", 2),
+                                               ("ed", 1), ("97", 0), ("6c", 1), ("01", 0))
+
+
+def _exec_op(st: Stream, nop_chance: Tuple[int, int] = (1, 2)) -> Op:
+    if st.chance(*nop_chance):
+        return ["exec", NOP, st.u32()]
+    head, n = st.choice(EXEC_TEMPLATES)
+    return ["exec", head + "".join("%02x" % st.below(256) for _ in range(n)), st.u32()]
+
+
+ALL_TARGETS: Tuple[str, ...] = CORE_NAMES + ("flag:C", "flag:Z") + TEMP_NAMES
+R3_VALUE_PAIRS = ((0xA5A5A5A5, 0x5A5A5A5A), (0xFF, 0), (0x12345678, 0xFFFFFFFF))
+
+
+def sweep_round3_cases(tier: str) -> Iterator[Tuple[str, List[Op]]]:
+    """Complete enumerations added in round 3 (family label, ops)."""
+    variants = (0, 1) if tier == "quick" else (0, 1, 2)
+    pairs = R3_VALUE_PAIRS[:2] if tier == "quick" else R3_VALUE_PAIRS
+    k = 0
+    # (a) independence: a name only the Rust register file has x every other name x both orders
+    for variant in variants:
+        pre = _prefill(variant)
+        for x in XNAMES + WNAMES:
+            for t in ALL_TARGETS + tuple(n for n in XNAMES + WNAMES if n != x):
+                for vx, vt in pairs:
+                    for first in (0, 1):
+                        k += 1
+                        w = [["set", x, vx], _write_op(t, vt)]
+                        yield "sweep:independence", pre + [w[first], ["all"], w[1 - first], ["all"],
+                                                           ["rt" if k % 2 else "rtb"], ["all"]]
+    # (b) a snapshot is a value: every name changed between taking a snapshot and applying it
+    for variant in variants:
+        pre = _prefill(variant)
+        for t in ALL_TARGETS + XNAMES:
+            for kind in ("d", "b"):
+                for mode in ("replace", "peek"):
+                    for host in ("plain", "cpu"):
+                        for v1, v2 in pairs[:1] if tier == "quick" else pairs[:2]:
+                            head: List[Op] = [["host", "cpu"]] if host == "cpu" else []
+                            yield "sweep:deferred", head + pre + [_write_op(t, v1), ["snap", 0, kind],
+                                                                  _write_op(t, v2), ["all"], ["apply", 0, mode],
+                                                                  ["all"]]
+    # (c) two live snapshots of different moments, applied in both orders
+    for variant in variants:
+        pre = _prefill(variant)
+        for t in ALL_TARGETS:
+            for a, b in ((0, 1), (1, 0)):
+                yield "sweep:deferred-order", pre + [_write_op(t, 0xA5A5A5A5), ["snap", 0, "d"],
+                                                     _write_op(t, 0x5A5A5A5A), ["snap", 1, "d"],
+                                                     _write_op(t, 0x00C3C3C3), ["apply", a, "peek"], ["all"],
+                                                     ["apply", b, "replace"], ["all"]]
+    # (d) an executed NOP between a write and the read-back / snapshot; a snapshot applied after the source ran on
+    for variant in variants:
+        pre = _prefill(variant)
+        for seed in (1, 0x5EED):
+            for t in TEMP_NAMES + XNAMES + ("A", "IH", "F", "FC", "X", "S"):
+                yield "sweep:exec", pre + [_write_op(t, 0x00A55A3C), ["all"], ["exec", NOP, seed], ["all"],
+                                           ["rt" if seed == 1 else "rtb"], ["all"]]
+                yield "sweep:exec", pre + [_write_op(t, 0x00A55A3C), ["snap", 2, "d"], ["exec", NOP, seed],
+                                           ["exec", "2e", seed], ["exec", "c01020", seed], ["all"],
+                                           ["apply", 2, "replace"], ["all"]]
+
+
+def deferred_sequences(seed: int, shard: int, n: int) -> List[List[Op]]:
+    """Seeded histories around deferred snapshots: rounds of writes (half of them to TEMPs, some to the Rust-only
+    names), optionally executed instructions, snapshots into one of 4 slots and applications of live slots in
+    generated order (replacing the current register file or not); all live slots are applied at the end."""
+    out: List[List[Op]] = []
+    for j in range(n):
+        st = Stream(seed, 0xC08, 0xDEF, shard, j)
+        flavour = st.below(10)         # 0-3 plain Registers, 4-5 CPU facade, 6-8 CPU facade + exec, 9 machine (file)
+        ops: List[Op] = [["host", "cpu"]] if 4 <= flavour <= 5 else []
+        if st.chance(1, 3):
+            ops += _prefill(st.below(3))
+        live: List[int] = []
+        for _ in range(2 + st.below(5)):
+            for _ in range(1 + st.below(4)):
+                k = st.below(4)
+                v = st.choice(BOUNDARY) if k < 2 else st.u32() if k == 2 else st.u32() & 0xFFFF
+                r = st.below(20)
+                if r < 9:
+                    ops.append(["set", st.choice(TEMP_NAMES), v])
+                elif r < 16:
+                    ops.append(["set", st.choice(CORE_NAMES), v])
+                elif r < 17:
+                    ops.append(["setflag", st.choice(("C", "Z")), v])
+                elif r < 19:
+                    ops.append(["set", st.choice(XNAMES), v])
+                else:
+                    ops.append(["set", st.choice(WNAMES), v])
+            if 6 <= flavour <= 8 and st.chance(1, 2):
+                for _ in range(1 + st.below(2)):
+                    ops.append(_exec_op(st, (1, 3)))
+            r = st.below(10)
+            if r < 5 or not live:
+                k = st.below(SLOTS)
+                ops.append(["snap", k, "b" if st.chance(1, 4) else "d"])
+                if k not in live:
+                    live.append(k)
+            elif r < 8:
+                ops.append(["apply", st.choice(live), "peek" if st.chance(1, 2) else "replace"])
+                ops.append(["all"])
+            elif r < 9:
+                ops.append(["rtf"] if flavour == 9 else ["rt"])
+                ops.append(["all"])
+            else:
+                ops.append(["all"])
+        while live:
+            k = live.pop(st.below(len(live)))
+            ops.append(["apply", k, "replace" if not live or st.chance(1, 3) else "peek"])
+            ops.append(["all"])
+        out.append(ops)
+    return out
+
+
 def _hyp_sequences(seed: int, n: int, min_ops: int = 1) -> List[List[Op]]:
     import hypothesis
     from hypothesis import HealthCheck, given, settings, strategies as st
 
-    name = st.one_of(st.sampled_from(CORE_NAMES), st.sampled_from(CORE_NAMES), st.sampled_from(CORE_NAMES),
-                     st.sampled_from(TEMP_NAMES))
+    core, temp = st.sampled_from(CORE_NAMES), st.sampled_from(TEMP_NAMES)
+    # every name a register file accepts: 1/8 of the names are the ones only the Rust file has
+    name = st.one_of(core, core, core, core, core, temp, temp, st.sampled_from(XNAMES))
     value = st.one_of(st.sampled_from(BOUNDARY), st.integers(0, 0xFFFFFFFF), st.integers(0, 0xFFFF))
     flag = st.sampled_from(["C", "Z"])
-    write = st.one_of(st.tuples(st.just("set"), name, value), st.tuples(st.just("set"), name, value),
-                      st.tuples(st.just("set"), name, value), st.tuples(st.just("setflag"), flag, value))
+    set_op = st.tuples(st.just("set"), name, value)
+    write = st.one_of(set_op, set_op, set_op, set_op, set_op, set_op, st.tuples(st.just("setflag"), flag, value),
+                      st.tuples(st.just("setflag"), flag, value),
+                      st.tuples(st.just("set"), st.sampled_from(WNAMES), value))
     # snapshot ops: the file path costs ~20 ms per op on the Python side, so it gets 1/5 of the snapshot ops
     snap = st.sampled_from([("rt",), ("rt",), ("rtb",), ("rtb",), ("rtf",)])
+    slot = st.integers(0, SLOTS - 1)
+    take = st.tuples(st.just("snap"), slot, st.sampled_from(["d", "d", "b"]))
+    apply_ = st.tuples(st.just("apply"), slot, st.sampled_from(["replace", "peek"]))
+    operand = st.integers(0, 255).map(lambda b: "%02x" % b)
+    exec_ = st.one_of(
+        st.tuples(st.just("exec"), st.just(NOP), st.integers(0, 0xFFFFFFFF)),
+        st.tuples(st.just("exec"),
+                  st.sampled_from(EXEC_TEMPLATES).flatmap(
+                      lambda t: st.tuples(*([st.just(t[0])] + [operand] * t[1])).map("".join)),
+                  st.integers(0, 0xFFFFFFFF)))
     other = st.one_of(st.tuples(st.just("get"), name), st.tuples(st.just("getflag"), flag), st.just(("all",)),
-                      snap, snap, st.just(("collect",)))
+                      snap, snap, st.just(("collect",)), take, apply_, apply_, exec_)
     op = st.one_of(write, write, other)
     seqs: List[List[Op]] = []
 
@@ -696,7 +1285,10 @@ def _hyp_sequences(seed: int, n: int, min_ops: int = 1) -> List[List[Op]]:
     @given(st.lists(op, min_size=min_ops, max_size=50), st.booleans())
     def collect(ops: List[Tuple[Any, ...]], dense: bool) -> None:
         out: List[Op] = []
+        has_exec = any(o[0] == "exec" for o in ops)
         for o in ops:
+            if has_exec and o[0] == "rtf":
+                o = ("rtb",)  # the machine-level file path and executed instructions are not combined
             out.append(list(o))
             if dense and o[0] in ("set", "setflag"):
                 out.append(["all"])
@@ -717,10 +1309,13 @@ def stream_sequences(seed: int, shard: int, n: int) -> List[List[Op]]:
         length = 3 + st.below(48)
         focus = MEMBERS[st.choice(focus_groups)] if st.chance(1, 2) else None
         dense = st.chance(1, 2)
+        executes = st.chance(1, 3)   # histories that also execute instructions (never combined with "rtf")
 
         def name() -> str:
             if focus is not None and st.chance(7, 10):
                 return st.choice(focus)
+            if st.chance(1, 12):
+                return st.choice(XNAMES)
             if st.chance(1, 5):
                 return st.choice(TEMP_NAMES)
             return st.choice(CORE_NAMES)
@@ -734,26 +1329,32 @@ def stream_sequences(seed: int, shard: int, n: int) -> List[List[Op]]:
         ops: List[Op] = []
         for _ in range(length):
             r = st.below(100)
-            if r < 58:
-                ops.append(["set", name(), value()])
-            elif r < 68:
+            if r < 54:
+                ops.append(["set", st.choice(WNAMES) if st.chance(1, 25) else name(), value()])
+            elif r < 63:
                 fl = st.choice(("C", "Z"))
                 if focus is not None and "F" not in focus and st.chance(1, 2):
                     ops.append(["set", name(), value()])
                 else:
                     ops.append(["setflag", fl, value()])
-            elif r < 80:
+            elif r < 74:
                 ops.append(["get", name()])
-            elif r < 84:
+            elif r < 78:
                 ops.append(["getflag", st.choice(("C", "Z"))])
-            elif r < 91:
+            elif r < 84:
                 ops.append(["all"])
-            elif r < 94:
+            elif r < 87:
                 ops.append(["rt"])
-            elif r < 97:
+            elif r < 89:
                 ops.append(["rtb"])
-            elif r < 98:
-                ops.append(["rtf"])
+            elif r < 90:
+                ops.append(["rtb"] if executes else ["rtf"])
+            elif r < 93:
+                ops.append(["snap", st.below(SLOTS), "b" if st.chance(1, 3) else "d"])
+            elif r < 96:
+                ops.append(["apply", st.below(SLOTS), "replace" if st.chance(1, 2) else "peek"])
+            elif r < 99:
+                ops.append(_exec_op(st) if executes else ["all"])
             else:
                 ops.append(["collect"])
             if dense and ops[-1][0] in ("set", "setflag"):
@@ -826,6 +1427,12 @@ def _shard_inner(task: Tuple[str, int, int, int, str, int]) -> Report:
         items = [(fam, ops) for k, (fam, ops) in enumerate(sweep_generation_cases(tier)) if k % nshards == shard]
         eval_batch(items, rep)
         rep.extra["sweep_generation_cases"] = len(items)
+    elif kind == "deferred":
+        eval_batch([("deferred", ops) for ops in deferred_sequences(seed, shard, n)], rep)
+    elif kind == "sweep3":
+        items = [(fam, ops) for k, (fam, ops) in enumerate(sweep_round3_cases(tier)) if k % nshards == shard]
+        eval_batch(items, rep)
+        rep.extra["sweep_round3_cases"] = len(items)
     else:
         items = [(fam, ops) for k, (fam, ops) in enumerate(sweep_cases(tier)) if k % nshards == shard]
         eval_batch(items, rep)
@@ -838,23 +1445,29 @@ def run(ctx: Ctx) -> Report:
     _preload()  # in the parent, so every forked worker starts from the same sys.modules
     rust = rsclient.Rust()
     try:
-        names = rust.call({"cmd": "c08.names"}).get("names")
+        resp = rust.call({"cmd": "c08.names"})
     finally:
         rust.close()
+    names = resp.get("names")
     if list(names or []) != list(NAMES):
         raise HarnessError(f"register name order mismatch between harness sides: {names}")
+    if list(resp.get("xnames") or []) != list(XNAMES) or list(resp.get("wnames") or []) != list(WNAMES):
+        raise HarnessError(f"Rust-only register names differ between harness sides: {resp}")
     n_hyp_shards = ctx.pick(16, 64)
     n_hyp = ctx.pick(200, 500)
     n_stream = ctx.pick(500, 1200)
     n_sweep = ctx.pick(16, 32)
     n_gen = ctx.pick(40, 150)
     n_gen_shards = 16
+    n_def = ctx.pick(120, 600)
     tasks: List[Tuple[str, int, int, int, str, int]] = []
     for i in range(n_sweep):
         tasks.append(("sweep", i, n_sweep, ctx.seed, ctx.tier, 0))
     for i in range(n_gen_shards):
         tasks.append(("sweepgen", i, n_gen_shards, ctx.seed, ctx.tier, 0))
         tasks.append(("gen", i, n_gen_shards, mix32(0xC08, ctx.seed, 0x6E6E), ctx.tier, n_gen))
+        tasks.append(("sweep3", i, n_gen_shards, ctx.seed, ctx.tier, 0))
+        tasks.append(("deferred", i, n_gen_shards, mix32(0xC08, ctx.seed, 0xDEFE), ctx.tier, n_def))
     for i in range(n_hyp_shards):
         # not ctx.shard_seed(i): mix32(seed, i, ..) xors seed and i before mixing, so small seeds would only
         # permute one set of shard seeds (seed 1 shard 1 == seed 2 shard 2); mix the run seed in first.
@@ -869,6 +1482,7 @@ def run(ctx: Ctx) -> Report:
     rep.extra["hypothesis_sequences"] = n_hyp_shards * n_hyp
     rep.extra["stream_sequences"] = n_hyp_shards * n_stream
     rep.extra["generation_sequences"] = n_gen_shards * n_gen
+    rep.extra["deferred_sequences"] = n_gen_shards * n_def
     rep.assumptions = [
         "pointer registers X, Y, U, S are 20 bits as the property statement says (the README table says 24)",
         "FC/FZ (and the C/Z flag API) are 1-bit registers: a written value is truncated to bit 0 (README: size 1)",
@@ -887,7 +1501,22 @@ def run(ctx: Ctx) -> Report:
         "with an 'rtf' op run on the `Registers` of a PC-E500 machine, which reads 0 everywhere when new); the bare "
         "LlamaState has no file path and does the blob round trip there; only register reads are compared, not "
         "memory, counters or other snapshot contents (C16/C17)",
-        "call_sub_level and the Rust-only IMR mirror register are not part of the statement and not compared",
+        "call_sub_level is not part of the statement and not compared",
+        "names only the Rust register file accepts: the IMR mirror register (RegName::IMR) overlaps no statement "
+        "register, so it must keep the last value written to it (truncated to some width 8..32) and must not "
+        "change, or be changed by, any other name; it is a mirror of IMEM 0xFB and not part of a register "
+        "snapshot, so in a fresh file a snapshot was applied to it may read 0 or the snapshotted file's value, and "
+        "after an executed instruction anything until it is written again.  Out-of-range scratch names "
+        "(Temp(14), Temp(15), Temp(255)) and an unknown operand name are only written: they must not change any "
+        "other name; their own values are not asserted",
+        "executed instructions are further writers of the register file, not something this property specifies: "
+        "after an instruction the model takes over the values the register file reads (per implementation; Python "
+        "and Rust TEMPn legitimately differ there: the Python lifter uses LLIL temporaries), except for NOP, which "
+        "by definition writes nothing but PC -- every other readable value must survive it (PC and the IMR "
+        "mirror are taken from the observation).  A failing instruction is not reported here (C04/C06)",
+        "a deferred snapshot is compared with what the same register file read when the snapshot was taken; blob "
+        "snapshots are serialised when taken (registers.bin bytes + TEMPs), as save_snapshot does",
+        "histories that execute instructions never use the machine-level snapshot file path (their 'rtf' is 'rtb')",
         "Python == model and Rust == model imply Python == Rust; a separate differential verdict exists only "
         "for TEMP values",
     ]
